@@ -201,9 +201,21 @@ fn long_commands(cx: &Ctx, out: &mut Out, t: &[u8], what: &str) {
     run_cmd(cx, out, &cmd(&[b"ECHO", t]), &format!("{}-echo", what));
 }
 
+/// readable command; long arguments are abbreviated (the case is replayed by seed and index)
+fn show_cmd(c: &RespValue) -> String {
+    match c {
+        RespValue::Array(items) => format!("[{}]", items.iter().map(show_cmd).collect::<Vec<_>>().join(", ")),
+        RespValue::BulkString(Some(b)) if b.len() > 400 => {
+            format!("\"{}\"..({} bytes)..\"{}\"", show(&b[..150]), b.len(), show(&b[b.len() - 150..]))
+        }
+        RespValue::BulkString(Some(b)) => format!("\"{}\"", show(b)),
+        other => format!("{:?}", other),
+    }
+}
+
 fn run_cmd(cx: &Ctx, out: &mut Out, c: &RespValue, what: &str) {
     let reply = cx.rt.block_on(cx.handler.handle_command(c, &cx.store));
-    reply_case(out, &reply, &format!("{} cmd={:?}", what, c));
+    reply_case(out, &reply, &format!("{} cmd={}", what, show_cmd(c)));
 }
 
 fn main() {
